@@ -18,12 +18,29 @@ use tmc_ref::r6::*;
 fn zones(tier: Tier) -> Vec<ZoneCase> {
     // gaps/overlaps up to 2 h (the +-3 h probe of gap resolution is C13's known finding) plus the
     // date-line shapes (+-24 h)
-    synth_zones(tier).into_iter().filter(|z| z.delta.abs() <= 7200 || z.delta.abs() == 86_400).filter(|z| !(z.zone.trans.len() > 1 && z.zone.trans[1].0 - z.zone.trans[0].0 < NS_PER_DAY)).collect()
+    let mut v: Vec<ZoneCase> = synth_zones(tier).into_iter().filter(|z| z.delta.abs() <= 7200 || z.delta.abs() == 86_400).filter(|z| !(z.zone.trans.len() > 1 && z.zone.trans[1].0 - z.zone.trans[0].0 < NS_PER_DAY)).collect();
+    // fixed-offset zones (resolved by the library itself, no provider involved): the same products
+    for off in [19_800i64, -12_600, 0, -86_340, 50_400] {
+        v.push(ZoneCase { zone: Zone { initial: off, trans: vec![] }, t: 0, base: off, delta: 0, desc: format!("fixed offset {}", tmc_ref::r8f::offset_text(off)) });
+    }
+    v
+}
+
+fn fixed_text(zc: &ZoneCase) -> Option<&str> {
+    zc.desc.strip_prefix("fixed offset ")
 }
 
 fn instants(zc: &ZoneCase) -> Vec<i128> {
     let h = 3600 * NS;
     let mut v = vec![];
+    if zc.zone.trans.is_empty() {
+        // receivers with pairwise distinct millisecond / microsecond / nanosecond digits, exact days apart and not
+        for base in [1_614_834_367_123_456_789i128, -86_399_999_998_997_996, 1_582_934_400_000_000_001] {
+            for o in [0, NS_PER_DAY, 2 * NS_PER_DAY, -NS_PER_DAY, 31 * NS_PER_DAY + h, 366 * NS_PER_DAY - 1] {
+                v.push(base + o);
+            }
+        }
+    }
     for (t, _) in &zc.zone.trans {
         for o in [0, -1, 1, -h, h, -23 * h, 23 * h, -25 * h, 25 * h, -31 * NS_PER_DAY, 31 * NS_PER_DAY] {
             v.push(t + o);
@@ -43,8 +60,12 @@ fn instants(zc: &ZoneCase) -> Vec<i128> {
     v
 }
 
-fn zdt(t: i128) -> ZonedDateTime {
-    ZonedDateTime::try_new(t, Calendar::default(), tz()).expect("zdt")
+fn zdt_in(zc: &ZoneCase, t: i128) -> ZonedDateTime {
+    let zone = match fixed_text(zc) {
+        Some(text) => temporal_rs::TimeZone::try_from_str(text).expect("offset zone"),
+        None => tz(),
+    };
+    ZonedDateTime::try_new(t, Calendar::default(), zone).expect("zdt")
 }
 
 fn local_text(zc: &ZoneCase, t: i128) -> String {
@@ -91,7 +112,7 @@ impl Space for Pairs {
         }
         let (a, b) = (pts[ia], pts[ib]);
         let prov = SynthProvider { name: ZONE_NAME, zone: &zc.zone };
-        let (za, zb) = (zdt(a), zdt(b));
+        let (za, zb) = (zdt_in(zc, a), zdt_in(zc, b));
         let crosses = zc.zone.offset_at(a) != zc.zone.offset_at(b);
         if crosses {
             out.nontrivial += 1;
@@ -217,7 +238,7 @@ impl Space for Adds {
         }
         let t = pts[p];
         let prov = SynthProvider { name: ZONE_NAME, zone: &zc.zone };
-        let z = zdt(t);
+        let z = zdt_in(zc, t);
         out.nontrivial += 1;
         let me = |r: Result<i128, ()>| r.map_err(|_| ErrorKind::Range);
         for d in &self.durs {
@@ -357,7 +378,7 @@ impl Space for ZonedRounding {
         }
         let a = pts[ia];
         let prov = SynthProvider { name: ZONE_NAME, zone: &zc.zone };
-        let za = zdt(a);
+        let za = zdt_in(zc, a);
         let modes = [RMode::Trunc, RMode::Ceil, RMode::Floor, RMode::HalfExpand, RMode::HalfEven];
         let em = |e: DErr| match e {
             DErr::Range => ErrorKind::Range,
@@ -366,7 +387,7 @@ impl Space for ZonedRounding {
         // rounded until / since against every other instant of the rule set
         for b in pts.iter().step_by(3) {
             let crosses = zc.zone.offset_at(a) != zc.zone.offset_at(*b);
-            let zb = zdt(*b);
+            let zb = zdt_in(zc, *b);
             for (largest, smallest, inc) in ROUND_CELLS {
                 for mode in modes {
                     let attrs = || vec![("zone", zc.desc.clone()), ("a", local_text(zc, a)), ("b", local_text(zc, *b)), ("largest", largest.to_string()), ("smallest", smallest.to_string()), ("increment", inc.to_string()), ("mode", mode.name().to_string()), ("crosses_transition", crosses.to_string()), ("change_size", zc.gap_class().to_string()), ("day_probe", zc.day_probe().to_string())];
